@@ -63,6 +63,18 @@ def program(rng):
             # belongs to the rule (it must hold whenever the goal is active), whatever happens to that fact
             items = [("ifact",)] + items + [("cons", rng.choice(["<=", ">="]), F(rng.randint(0, 4)))]
         rules[i] = items
+    if k >= 2 and rng.random() < 0.3:
+        # mutual recursion: a back edge (same argument) inside a disjunction with a way out - the sub-goal can unify with
+        # the goal it descends from, which would close a causal cycle through two unifications
+        j = rng.randint(1, k - 1)
+        i = rng.randint(0, j - 1)
+        if not any(it[0] == "sub" and it[1] == j for it in rules[i]):
+            rules[i] = rules[i] + [("sub", j, F(0))]
+        out = [("cons", rng.choice(["<=", ">="]), F(rng.randint(0, 4)))] if rng.random() < 0.6 else []
+        brs = [[("sub", i, F(0))], out]
+        if rng.random() < 0.5:
+            brs.insert(1, [("cons", ">=", F(rng.randint(3, 7)))])
+        rules[j] = rules[j] + [("or", brs)]
     lines = ["predicate Iv() : Interval { }"]
     ctr = [0]
     for i in range(k):
